@@ -504,7 +504,10 @@ func (k *Checker[C]) writeFail(c C, f *Failure) {
 		total := 0
 		for i := len(k.frozen) - 1; i >= 0; i-- {
 			e := k.encode(k.frozen[i])
-			if total += len(e); total > 1<<20 {
+			if len(e) > 1<<18 {
+				continue // a single huge case is left out rather than ending the history
+			}
+			if total += len(e); total > 2<<20 {
 				break
 			}
 			k.frozenEnc = append(k.frozenEnc, e)
